@@ -65,6 +65,12 @@ def instantiate_template_args(typename: parser.Typename,
                 and cpp_typename:
             instantiation.namespaces = cpp_typename.namespaces
             instantiation.name = cpp_typename.name
+        elif 'This' in instantiation.namespaces and cpp_typename:
+            # Scoped `This`, e.g. This::Value (also deeper than the first level)
+            this_idx = instantiation.namespaces.index('This')
+            instantiation.namespaces = cpp_typename.namespaces + [
+                cpp_typename.name
+            ] + instantiation.namespaces[this_idx + 1:]
 
 
 def instantiate_type(
